@@ -113,6 +113,14 @@ MUTANTS = [
          old="    else pure ((numbers.drop 1).map fun e => (start, e - 1))",
          new="    else pure (((numbers.drop 1).take 1).map fun e => (start, e - 1))",
          expect=["C07"], why="a multi-attachment bond expands to its first endpoint only"),
+    dict(id="attribute-blocks-descending", file="TucanModel/Serialize.lean",
+         old="def writeNodeAttributes (g : Graph) : Str :=\n  let ns := g.nodes.mergeSort fun a b => decide (a.id ≤ b.id)",
+         new="def writeNodeAttributes (g : Graph) : Str :=\n  let ns := g.nodes.mergeSort fun a b => decide (a.id ≥ b.id)",
+         expect=["C05"], why="attribute blocks written in descending index order"),
+    dict(id="tuples-descending", file="TucanModel/Serialize.lean",
+         old="  (g.edges.map fun (u, v, _) => if u ≤ v then (u, v) else (v, u)).mergeSort leNN",
+         new="  (g.edges.map fun (u, v, _) => if u ≤ v then (u, v) else (v, u)).mergeSort fun a b => leNN b a",
+         expect=["C05"], why="tuples written in descending order"),
     dict(id="v2000-reset-without-chg-lines", file="TucanModel/Molfile.lean",
          old="  let atoms := if resetCR then atoms.map fun (k, a) => (k, { a with chg := none, rad := none }) else atoms",
          new="  let atoms := atoms.map fun (k, a) => (k, { a with chg := none, rad := none })",
